@@ -60,6 +60,39 @@ theorem insertSlow_no_limit {e : Entry} : ∀ {q : List Entry}, insertSlow e q =
           exact insertSlow_no_limit hrec
 
 
+/-- `add` itself never returns the limit error -/
+theorem add_no_limit (m : Manager) (seq rpt : Nat) (id tok : Bytes) (draw : Nat) :
+    (m.add seq rpt id tok draw).2.2 ≠ .err .limitError := by
+  unfold Manager.add
+  split
+  · simp
+  split
+  · simp
+  split
+  · simp
+  simp only
+  split
+  · simp
+  split
+  · rename_i er herr
+    intro h
+    simp only [Res.err.injEq] at h
+    subst h
+    unfold addConnectionID at herr
+    split at herr
+    · cases herr
+    · split at herr
+      · cases herr
+      · exact insertSlow_no_limit herr
+  split
+  · unfold Manager.updateConnectionID
+    split
+    · simp
+    · simp only
+      split <;> simp
+  · simp
+
+
 /-- `Add` answers CONNECTION_ID_LIMIT_ERROR only if more connection IDs are in use than `adv`, for every `adv` up to
     max(MaxActiveConnectionIDs, connIDLimit) -/
 theorem accept_within (m : Manager) (seq rpt : Nat) (id tok : Bytes) (draw : Nat) (adv : Nat)
@@ -81,38 +114,7 @@ theorem accept_within (m : Manager) (seq rpt : Nat) (id tok : Bytes) (draw : Nat
     · simp [hok]
   · rename_i hne
     intro heq
-    -- `add` itself never returns the limit error
-    have : (m.add seq rpt id tok draw).2.2 ≠ .err .limitError := by
-      clear hne heq hcount hl
-      unfold Manager.add
-      split
-      · simp
-      split
-      · simp
-      split
-      · simp
-      simp only
-      split
-      · simp
-      split
-      · rename_i er herr
-        intro h
-        simp only [Res.err.injEq] at h
-        subst h
-        unfold addConnectionID at herr
-        split at herr
-        · cases herr
-        · split at herr
-          · cases herr
-          · exact insertSlow_no_limit herr
-      split
-      · unfold Manager.updateConnectionID
-        split
-        · simp
-        · simp only
-          split <;> simp
-      · simp
-    exact this heq
+    exact add_no_limit m seq rpt id tok draw heq
 
 /-- apart from the two documented caller errors (`ChangeInitialConnID` / `SetStatelessResetToken` after the first
     rotation) an open manager never panics; in particular `h.queue[0]` in `updateConnectionID` is never reached with
